@@ -523,7 +523,16 @@ def validate(m):
 # ---------------------------------------------------------------------------
 # evaluation (values: i32 as signed Python int / SymNum; f32 as float / SymNum real)
 # ---------------------------------------------------------------------------
+ASSUME_NO_I32_OVERFLOW = False      # set by harnesses that compare values on the domain "no intermediate leaves the 32-bit range"
+
+
 def wrap32(x):
+    if ASSUME_NO_I32_OVERFLOW and not isinstance(x, (int, bool)):
+        from . import symx
+        import z3
+        if isinstance(x, symx.SymNum) and not x.isf:
+            symx.current().assume(z3.And(x.e >= -2 ** 31, x.e < 2 ** 31))
+            return x
     return ((x + 2 ** 31) % (2 ** 32)) - 2 ** 31
 
 
